@@ -19,6 +19,8 @@ type Pipe struct {
 	eof     bool
 	readErr error
 	open    bool
+	waiters int // readers blocked in Read
+	epoch   int // incremented by Close: a Read blocked across a Close fails, as on a socket
 
 	// Behaviour switches (read under mu).
 	OpenErr       error // returned by the next Open (then cleared)
@@ -75,6 +77,7 @@ func (p *Pipe) Close() error {
 		return e
 	}
 	p.open = false
+	p.epoch++
 	if p.CloseEndsRead {
 		p.eof = true
 		p.buf = nil
@@ -87,8 +90,14 @@ func (p *Pipe) Read(b []byte) (int, error) {
 	p.mu.Lock()
 	defer p.mu.Unlock()
 	p.Reads++
-	for len(p.buf) == 0 && !p.eof && p.readErr == nil {
+	epoch := p.epoch
+	for len(p.buf) == 0 && !p.eof && p.readErr == nil && (p.epoch == epoch || !p.CloseEndsRead) {
+		p.waiters++
 		p.cond.Wait()
+		p.waiters--
+	}
+	if p.epoch != epoch && p.CloseEndsRead {
+		return 0, thrift.NewTTransportExceptionFromError(io.EOF)
 	}
 	if len(p.buf) == 0 {
 		if p.readErr != nil {
@@ -163,6 +172,9 @@ func (p *Pipe) SetOpenErr(err error) { p.mu.Lock(); p.OpenErr = err; p.mu.Unlock
 func (p *Pipe) SetCloseErr(err error) { p.mu.Lock(); p.CloseErr = err; p.mu.Unlock() }
 
 func (p *Pipe) OpenOKCount() int { p.mu.Lock(); defer p.mu.Unlock(); return p.OpenOK }
+
+// Waiters is the number of goroutines blocked in Read.
+func (p *Pipe) Waiters() int { p.mu.Lock(); defer p.mu.Unlock(); return p.waiters }
 
 // Pending is the number of inbound bytes not yet read.
 func (p *Pipe) Pending() int { p.mu.Lock(); defer p.mu.Unlock(); return len(p.buf) }
